@@ -44,6 +44,12 @@ type Query struct {
 	Type     string `json:"type,omitempty"`    // ReadChanges
 	Name     string `json:"name,omitempty"`    // ListStores
 	Store    int    `json:"store,omitempty"`   // 0 = write-only store, 1 = store with deletes
+	// ListStoresByIDs: storage.ListStoresOptions.IDs at the datastore interface (the filter the server passes
+	// when access control is on: the caller's readable stores, in no particular order). Indices into the
+	// world's stores in creation order, -1 = an id that does not exist. Rotate: the list is reversed on every
+	// page after the first (the authorization result has no stable order between two page requests).
+	IDs    []int `json:"ids,omitempty"`
+	Rotate bool  `json:"rotate,omitempty"`
 }
 
 func (q Query) String() string {
@@ -271,6 +277,16 @@ func (w *world) expected(q Query) (items []string, ordered bool) {
 		}
 		sort.Strings(items) // "stores by ID"
 		return items, true
+	case "ListStoresByIDs":
+		seen := map[int]bool{}
+		for _, i := range q.IDs {
+			if i >= 0 && !seen[i] && (q.Name == "" || q.Name == w.names[i]) {
+				seen[i] = true
+				items = append(items, w.storeIDs[i])
+			}
+		}
+		sort.Strings(items)
+		return items, true
 	case "ReadAuthorizationModels":
 		for i := len(w.models) - 1; i >= 0; i-- { // newest first
 			items = append(items, w.models[i])
@@ -359,6 +375,28 @@ func (w *world) call(q Query, pageSize int, token string, typeOverride *string) 
 			p.items = append(p.items, s.GetId())
 		}
 		p.token = resp.GetContinuationToken()
+	case "ListStoresByIDs":
+		var ids []string
+		for _, i := range q.IDs {
+			if i < 0 {
+				ids = append(ids, "01ZZZZZZZZZZZZZZZZZZZZZZZZ")
+			} else {
+				ids = append(ids, w.storeIDs[i])
+			}
+		}
+		if q.Rotate && token != "" {
+			for i, j := 0, len(ids)-1; i < j; i, j = i+1, j-1 {
+				ids[i], ids[j] = ids[j], ids[i]
+			}
+		}
+		stores, tok, err := w.dsStores.ListStores(ctx, storage.ListStoresOptions{IDs: ids, Name: q.Name, Pagination: storage.PaginationOptions{PageSize: pageSize, From: token}})
+		if err != nil {
+			return page{err: err.Error()}
+		}
+		for _, s := range stores {
+			p.items = append(p.items, s.GetId())
+		}
+		p.token = tok
 	case "ReadAuthorizationModels":
 		resp, err := w.s.ReadAuthorizationModels(ctx, &openfgav1.ReadAuthorizationModelsRequest{StoreId: w.data[q.Store], PageSize: ps(pageSize), ContinuationToken: token})
 		if err != nil {
@@ -829,6 +867,16 @@ func (c *checker) runWorld(backend string, n int, mutate bool) {
 			c.typeReplay(w, q, first)
 		}
 	}
+	// ListStores with an id filter (datastore interface): every non-empty subset of the stores in every order
+	// (<= 3 ids; ascending / descending / rotated beyond), with and without an unknown id, fixed and changing
+	// between page requests, every page size
+	if n >= 2 && n <= 5 {
+		for _, q := range idFilterQueries(n) {
+			for _, p := range pageSizes(len(q.IDs)) {
+				c.paginate(w, q, p)
+			}
+		}
+	}
 	// last (it changes the data): resuming after the end signal
 	for st := 0; st < 2; st++ {
 		q := Query{API: "ReadChanges", Store: st}
@@ -837,6 +885,53 @@ func (c *checker) runWorld(backend string, n int, mutate bool) {
 			c.resume(w, q, wk)
 		}
 	}
+}
+
+func idFilterQueries(n int) []Query {
+	var out []Query
+	var perms func(cur, rest []int, emit func([]int))
+	perms = func(cur, rest []int, emit func([]int)) {
+		if len(rest) == 0 {
+			emit(append([]int{}, cur...))
+			return
+		}
+		for i := range rest {
+			nr := append(append([]int{}, rest[:i]...), rest[i+1:]...)
+			perms(append(cur, rest[i]), nr, emit)
+		}
+	}
+	for mask := 1; mask < 1<<n; mask++ {
+		var sub []int
+		for i := 0; i < n; i++ {
+			if mask&(1<<i) != 0 {
+				sub = append(sub, i)
+			}
+		}
+		var orders [][]int
+		if len(sub) <= 3 {
+			perms(nil, sub, func(o []int) { orders = append(orders, o) })
+		} else {
+			desc := make([]int, len(sub))
+			for i, v := range sub {
+				desc[len(sub)-1-i] = v
+			}
+			rot := append(append([]int{}, sub[1:]...), sub[0])
+			orders = [][]int{sub, desc, rot}
+		}
+		for _, o := range orders {
+			for _, rotate := range []bool{false, true} {
+				if rotate && len(o) < 2 {
+					continue
+				}
+				out = append(out, Query{API: "ListStoresByIDs", IDs: o, Rotate: rotate})
+			}
+			if len(o) <= 2 {
+				out = append(out, Query{API: "ListStoresByIDs", IDs: append([]int{-1}, o...)})
+				out = append(out, Query{API: "ListStoresByIDs", IDs: append(append([]int{}, o...), o[0])}) // an id listed twice
+			}
+		}
+	}
+	return out
 }
 
 func sizes(thorough bool) []int {
@@ -855,7 +950,7 @@ func sizes(thorough bool) []int {
 
 func Run(o *core.Options) int {
 	r := core.NewReport(o, "exploration",
-		"For every data-set size n of the bound, both backends (memory, SQLite) and EVERY page size 1..min(n+2,100) plus 'not given', continuation tokens are followed through the public Server API for Read (no key and 7 tuple-key filters, two stores: write-only and with deletes), ReadChanges (no type / doc / group / unknown type), ListStores (no name / two names / unknown name) and ReadAuthorizationModels until the documented end signal; the concatenation is compared with the harness's own list. Then: every issued ReadChanges token is replayed with every other type filter; crafted decoded values {'', -1, 0, 1, abc, huge, MaxInt64, n, n+1, n+7} are sent bare and inside the backend's serializer envelope; for selected n every single-character substitution and every truncation of two issued tokens per query. A case = one complete token walk. Non-trivial = a walk over more than one page (distinct by backend, query, n, page size) or an accepted/rejected forged token class.")
+		"For every data-set size n of the bound, both backends (memory, SQLite) and EVERY page size 1..min(n+2,100) plus 'not given', continuation tokens are followed through the public Server API for Read (no key and 7 tuple-key filters, two stores: write-only and with deletes), ReadChanges (no type / doc / group / unknown type), ListStores (no name / two names / unknown name; for n in 2..5 also with an id filter at the datastore interface: every subset of the stores in every order, with an unknown and a repeated id, the order fixed or changing between page requests) and ReadAuthorizationModels until the documented end signal; the concatenation is compared with the harness's own list. Then: every issued ReadChanges token is replayed with every other type filter; crafted decoded values {'', -1, 0, 1, abc, huge, MaxInt64, n, n+1, n+7} are sent bare and inside the backend's serializer envelope; for selected n every single-character substitution and every truncation of two issued tokens per query. A case = one complete token walk. Non-trivial = a walk over more than one page (distinct by backend, query, n, page size) or an accepted/rejected forged token class.")
 	r.Assume(
 		"bound: n in 0..12 (quick), additionally 13..40,44,48..52,60,64,70,75,80,90,98..102,110,120 (thorough); n = number of tuples = number of changelog entries = number of models = number of stores",
 		"page sizes above 100 are rejected by API validation for all four APIs, so 'every page size' = 1..min(n+2,100) and the default (50)",
